@@ -24,8 +24,8 @@ DRIVERS = ["drv_c05"]
 RULE = ("a case is one request history on one parsed library (every class of every file of test/models requested twice "
         "in sequence and in shuffled order; generated libraries with packages, nested classes, extends, components of "
         "class type with modifications, type aliases, connectors, functions, constants, redeclarations; CLI runs with "
-        "several -m); non-trivial = the history has at least two requests and at least one request whose class is used "
-        "(extended / instantiated / repeated) by an earlier request; distinct = distinct (source, request list)")
+        "several -m); non-trivial = the history has at least two requests (every history of the streams repeats classes "
+        "and requests classes used by earlier ones); distinct = distinct (source, request list)")
 TRUSTED = ["canonical form of a flat model = Node.to_json of the returned tree (all symbols with attributes, equations, "
            "functions), of a CasADi model = names/attributes of its variable lists and the printed MX residuals",
            "the write footprint of tree.flatten is observed (snapshot diff per request), not proved"]
@@ -178,10 +178,16 @@ def flatten_with_footprint(ctx, drv, t, path, case):
     ctx.count("footprint-real-writes-%s" % ("none" if not written else "consts" if set(written) <= _reach(g, consts) else "other"))
     if drv is not None and tid is not None:
         ans = drv.ask({"op": "graph.flatten", "heap": heap, "cfg": cfg_for_model(ctx), "root": g.idx(t),
-                       "path": list(path), "inner": inner, "consts": consts})
+                       "path": list(path), "inner": inner, "consts": consts, "rank": a04.depths(g, [t])})
         if not ans.get("ok"):
             raise HarnessError("model driver rejected flatten: %s" % ans)
         ctx.count("model-footprint")
+        chk = ans.get("checks")
+        if chk is not None:
+            for k in ("wf", "tree", "rank"):
+                if not chk.get(k):
+                    ctx.disagreement("hypothesis-" + k, dict(case, footprint_of=list(path)),
+                                     "the theorems assume %s of a parsed tree" % k, chk)
         if ans["result"] is None:
             ctx.disagreement("footprint", dict(case, footprint_of=list(path)), "model: lookup failed", "impl: found")
         elif not set(written) <= set(ans["written"]):
@@ -462,7 +468,7 @@ def run(ctx):
         if ctx.time_left() < 0:
             break
         run_case(ctx, gen_cli_case(ctx, ctx.rng), drv)
-    nlib, nreq = (30, 12) if quick else (600, 30)
+    nlib, nreq = (30, 12) if quick else (1500, 30)
     for i in range(nlib):
         if ctx.time_left() < 0:
             ctx.notes.append("generated-library stream stopped by time budget after %d libraries" % i)
@@ -506,4 +512,4 @@ MANIFEST = dict(
     technique="Lean 4 proof (frame + bisimulation invariant of deepcopy, induction over request histories) + "
               "model/implementation correspondence + direct differential oracle",
 )
-READY = False
+READY = True
